@@ -28,7 +28,29 @@ SHAPE = ("shape", ["debug", "release"])
 
 DEND = ("dend", ["debug"])
 
+ALGO2 = ("algo", ["debug", "release"])
+
 PROPS = {
+    "C01": dict(streams=[ALGO, HIST], oracles=[dict(name="wf", profiles=["debug"])],
+                assumptions=["distinctness of merged clusters and size = sum of sizes are not theorems (C01_full is stated, not proved)"]),
+    "C02": dict(streams=[ALGO, HIST], translators=["formulas"], oracles=[dict(name="criterion", profiles=["debug"])],
+                assumptions=["theorems are exact-rational one-merge identities; the invariant over whole runs and the float tolerance are measured by the oracle"]),
+    "C03": dict(streams=[ALGO, HIST], oracles=[dict(name="greedy", profiles=["debug"])],
+                assumptions=["theorem covers the primitive algorithm on the working matrix; order laws of `<` (transitive, irreflexive) are hypotheses that IEEE comparison satisfies"]),
+    "C04": dict(streams=[ALGO, HIST], oracles=[dict(name="single_exact", profiles=["debug"])],
+                assumptions=["threshold-component and MST-weight characterisations are checked by the oracle, not proved"]),
+    "C06": dict(streams=[ALGO], translators=["tables"], oracles=[dict(name="agree", profiles=["debug"])],
+                assumptions=["agreement between different algorithms is not a theorem"]),
+    "C09": dict(streams=[ALGO], translators=["formulas"], oracles=[dict(name="scale", profiles=["debug"])],
+                assumptions=["arithmetic methods: the equivariance theorem is conditional on the scaling map commuting with the float operations on the occurring values"]),
+    "C10": dict(streams=[ALGO, HIST], oracles=[dict(name="order", profiles=["debug"])],
+                assumptions=["hypotheses of the theorem: g preserves < and == on the matrix values and maps the sentinels to the sentinels"]),
+    "C11": dict(streams=[ALGO], oracles=[dict(name="permute", profiles=["debug"])],
+                assumptions=["only the symmetry of the update formulas is a theorem"]),
+    "C12": dict(streams=[ALGO2, HIST], oracles=[dict(name="safety", profiles=["debug", "release"])],
+                assumptions=["absence of panics for n >= 2 and finiteness for arithmetic methods are measured, not proved"]),
+    "C14": dict(streams=[("cost", ["debug"])], translators=["tables"], oracles=[dict(name="cost", profiles=["debug"])],
+                assumptions=["nnchain: the bound is measured (count equality with the model + adversarial search), only mst has a theorem"]),
     "C07": dict(
         streams=[ALGO, HIST],
         translators=["formulas"],
@@ -42,7 +64,7 @@ PROPS = {
     ),
     "C19": dict(
         streams=[DEND],
-        oracles=[],
+        oracles=[dict(name="container", profiles=["debug"])],
         assumptions=["eq_with_epsilon is characterised with the rounded float subtraction the code performs"],
     ),
     "C15": dict(
